@@ -53,6 +53,17 @@ type Call struct {
 	// Partial (only with Fail): the function returns a non-nil item TOGETHER with its error (a partial result).
 	// The call still failed: the error goes to the callers and nothing is cached.
 	Partial bool `json:"partial,omitempty"`
+	// Inst (random cases only): which of three memoizers of the case is called. Memoizers are independent objects: the same
+	// key on another memoizer is another key (its own function, its own cache, nothing to wait for).
+	Inst int `json:"inst,omitempty"`
+}
+
+// kname names a logical key (memoizer*3 + key).
+func kname(lk int) string {
+	if lk < 3 {
+		return string(keyNames[lk])
+	}
+	return fmt.Sprintf("%s on memoizer #%d", string(keyNames[lk%3]), lk/3)
 }
 
 type Case struct {
@@ -72,7 +83,7 @@ func (c Case) String() string {
 				out = "item+err"
 			}
 		}
-		s += fmt.Sprintf(" [#%d @%dms %s fn:%v/%s]", i, at, string(keyNames[cl.Key]), latencies[cl.Lat], out)
+		s += fmt.Sprintf(" [#%d @%dms %s fn:%v/%s]", i, at, kname(cl.Inst*3+cl.Key), latencies[cl.Lat], out)
 	}
 	return s
 }
@@ -96,6 +107,7 @@ func enum(s pbt.Src, thorough bool) Case {
 func gen(s pbt.Src, thorough bool) Case {
 	c := Case{Expiry: s.Intn(2)}
 	nk := 1 + s.Intn(3)
+	ninst := pbt.Pick(s, 1, 1, 1, 2, 3)
 	c.Calls = pbt.Seq(s, 1, 16, func(s pbt.Src) Call {
 		gap := 0
 		switch s.Intn(4) {
@@ -108,7 +120,7 @@ func gen(s pbt.Src, thorough bool) Case {
 		case 3:
 			gap = 2 * (10 + s.Intn(25))
 		}
-		cl := Call{Key: s.Intn(nk), Gap: gap, Lat: s.Intn(4), Fail: s.Intn(4) == 0}
+		cl := Call{Key: s.Intn(nk), Gap: gap, Lat: s.Intn(4), Fail: s.Intn(4) == 0, Inst: s.Intn(ninst)}
 		if cl.Fail {
 			cl.Partial = s.Intn(3) == 0
 		}
@@ -128,7 +140,7 @@ func outOfEnum(c Case, thorough bool) bool {
 				ok = true
 			}
 		}
-		if !ok || cl.Key > 1 {
+		if !ok || cl.Key > 1 || cl.Inst != 0 {
 			return true
 		}
 	}
@@ -164,14 +176,17 @@ type callRec struct {
 
 func prop(c Case, r *pbt.R) error {
 	exp := expiries[c.Expiry]
-	m := gogu.NewMemoizer[mkey, int](exp, 0)
+	var ms [3]*gogu.Memoizer[mkey, int]
+	for i := range ms {
+		ms[i] = gogu.NewMemoizer[mkey, int](exp, 0)
+	}
 	t0 := time.Now()
 	since := func() time.Duration { return time.Since(t0) }
 
 	var mu sync.Mutex
 	var execs []execRec
 	calls := make([]callRec, len(c.Calls))
-	var inflight [3]atomic.Int32
+	var inflight [9]atomic.Int32
 	var overlap atomic.Int32
 	nextVal := 0
 
@@ -180,20 +195,24 @@ func prop(c Case, r *pbt.R) error {
 	for i, cl := range c.Calls {
 		at += time.Duration(cl.Gap) * time.Millisecond
 		i, cl, startAt := i, cl, at
+		if cl.Inst < 0 || cl.Inst > 2 || cl.Key < 0 || cl.Key > 2 {
+			return fmt.Errorf("harness: call outside the tables: %+v", cl)
+		}
+		lk := cl.Inst*3 + cl.Key
 		wg.Add(1)
 		go func() {
 			defer wg.Done()
 			time.Sleep(startAt)
-			rec := callRec{key: cl.Key, start: since()}
+			rec := callRec{key: lk, start: since()}
 			fn := func() (*cache.Item[int], error) {
-				if inflight[cl.Key].Add(1) > 1 {
+				if inflight[lk].Add(1) > 1 {
 					overlap.Add(1)
 				}
 				mu.Lock()
 				nextVal++
 				v := 1000 + nextVal
 				idx := len(execs)
-				execs = append(execs, execRec{key: cl.Key, start: since(), by: i, val: v})
+				execs = append(execs, execRec{key: lk, start: since(), by: i, val: v})
 				mu.Unlock()
 				rec.ran = true
 				if d := latencies[cl.Lat]; d > 0 {
@@ -214,10 +233,10 @@ func prop(c Case, r *pbt.R) error {
 				execs[idx].ok = !cl.Fail
 				execs[idx].err = err
 				mu.Unlock()
-				inflight[cl.Key].Add(-1)
+				inflight[lk].Add(-1)
 				return it, err
 			}
-			it, err := m.Memoize(keyNames[cl.Key], fn)
+			it, err := ms[cl.Inst].Memoize(keyNames[cl.Key], fn)
 			rec.end = since()
 			rec.err = err
 			rec.nilItem = it == nil
@@ -233,13 +252,15 @@ func prop(c Case, r *pbt.R) error {
 	// Epilogue: what a caller received stays what it was. Let every finite entry expire, purge, memoize another key (so
 	// that the cache stores again) and read every item handed out earlier once more.
 	time.Sleep(200 * time.Millisecond)
-	m.Cache.DeleteExpired()
-	if _, err := m.Memoize("another-key", func() (*cache.Item[int], error) { return mkItem(424242), nil }); err != nil {
-		return fmt.Errorf("%v: Memoize of a fresh key after the timeline failed: %v", c, err)
+	for _, m := range ms {
+		m.Cache.DeleteExpired()
+		if _, err := m.Memoize("another-key", func() (*cache.Item[int], error) { return mkItem(424242), nil }); err != nil {
+			return fmt.Errorf("%v: Memoize of a fresh key after the timeline failed: %v", c, err)
+		}
 	}
 	for i, cr := range calls {
 		if cr.item != nil && cr.err == nil && cr.item.Val() != cr.val {
-			return fmt.Errorf("%v: call #%d (%s) received the value %d; after the entries expired, were purged and another key was memoized, the item it holds reads %d", c, i, string(keyNames[cr.key]), cr.val, cr.item.Val())
+			return fmt.Errorf("%v: call #%d (%s) received the value %d; after the entries expired, were purged and another key was memoized, the item it holds reads %d", c, i, kname(cr.key), cr.val, cr.item.Val())
 		}
 	}
 
@@ -252,7 +273,7 @@ func prop(c Case, r *pbt.R) error {
 		if cr.err != nil {
 			res = fmt.Sprintf("error %q", cr.err)
 		}
-		return fmt.Sprintf("call #%d (%s, started %v, returned %v with %s)", i, string(keyNames[cr.key]), cr.start, cr.end, res)
+		return fmt.Sprintf("call #%d (%s, started %v, returned %v with %s)", i, kname(cr.key), cr.start, cr.end, res)
 	}
 	execsStr := func() string {
 		s := ""
@@ -261,7 +282,7 @@ func prop(c Case, r *pbt.R) error {
 			if !e.ok {
 				out = "error"
 			}
-			s += fmt.Sprintf(" {exec %d %s %v..%v %s by call #%d}", j, string(keyNames[e.key]), e.start, e.end, out, e.by)
+			s += fmt.Sprintf(" {exec %d %s %v..%v %s by call #%d}", j, kname(e.key), e.start, e.end, out, e.by)
 		}
 		return s
 	}
@@ -347,7 +368,7 @@ func prop(c Case, r *pbt.R) error {
 	for j, e := range execs {
 		if cs := cachedAt(e.key, e.start); len(cs) > 0 {
 			return fmt.Errorf("%v: execution %d for %s started at %v although the value %d (completed %v) was cached and not expired; executions:%s",
-				c, j, string(keyNames[e.key]), e.start, cs[0].val, cs[0].end, execsStr())
+				c, j, kname(e.key), e.start, cs[0].val, cs[0].end, execsStr())
 		}
 		found := false
 		for _, cr := range calls {
@@ -356,7 +377,7 @@ func prop(c Case, r *pbt.R) error {
 			}
 		}
 		if !found {
-			return fmt.Errorf("%v: execution %d for %s started at %v, when no call for that key started; executions:%s", c, j, string(keyNames[e.key]), e.start, execsStr())
+			return fmt.Errorf("%v: execution %d for %s started at %v, when no call for that key started; executions:%s", c, j, kname(e.key), e.start, execsStr())
 		}
 	}
 
@@ -371,7 +392,7 @@ func prop(c Case, r *pbt.R) error {
 			for _, e := range execs {
 				if e.ok && e.val == cr.val {
 					if e.key != cr.key {
-						return fmt.Errorf("%v: %s received a value computed for %s; executions:%s", c, desc(i), string(keyNames[e.key]), execsStr())
+						return fmt.Errorf("%v: %s received a value computed for %s; executions:%s", c, desc(i), kname(e.key), execsStr())
 					}
 					if e.start <= cr.end {
 						ok = true
@@ -478,8 +499,8 @@ func prop(c Case, r *pbt.R) error {
 		}
 	}
 	// after completion the cache holds, for every key, nothing or a produced value of that key
-	for k := range keyNames {
-		if it, err := m.Cache.Get(keyNames[k]); err == nil && it != nil {
+	for k := 0; k < 9; k++ {
+		if it, err := ms[k/3].Cache.Get(keyNames[k%3]); err == nil && it != nil {
 			ok := false
 			for _, e := range execs {
 				if e.key == k && e.ok && e.val == it.Val() {
@@ -487,7 +508,7 @@ func prop(c Case, r *pbt.R) error {
 				}
 			}
 			if !ok {
-				return fmt.Errorf("%v: the cache holds %d for %s, which no execution for that key produced; executions:%s", c, it.Val(), string(keyNames[k]), execsStr())
+				return fmt.Errorf("%v: the cache holds %d for %s, which no execution for that key produced; executions:%s", c, it.Val(), kname(k), execsStr())
 			}
 		}
 	}
